@@ -188,6 +188,13 @@ def one(ctx, rng, k, prop="C14"):
         # the options under which the late alias is found by a second pass
         opts.update({"detect_aliases": True, "eliminate_constant_assignments": True, "replace_constant_values": True,
                      "iterative_simplification": True})
+    if getattr(g, "want_aliases", False) and rng.random() < 0.6:
+        opts["detect_aliases"] = True
+        if rng.random() < 0.6:
+            opts["replace_constant_values"] = opts["replace_parameter_values"] = False
+    if getattr(g, "want_eliminable", False) and rng.random() < 0.6:
+        opts["eliminable_variable_expression"] = r"_\w+"
+        opts["expand_mx"] = True
     on = [o for o in gensolv.OPTIONS if opts.get(o)]
     deco = any(t.split(":")[0] in ("alias", "constant-assignment", "eliminable-variable", "if-equation", "factored-equation") for t in g.tags)
     ctx.case({"t": text, "o": opts}, deco and len(on) >= 2, {"model": text, "options_on": on} if k < 1 else None)
